@@ -1,0 +1,14 @@
+//go:build verif
+
+package lsp
+
+// VerifHandlerHook, when set, is called with the method name at the start of
+// every request and notification handler. It exists only in builds tagged
+// "verif" and lets a monitor inject a fault (a panic) inside a handler.
+var VerifHandlerHook func(method string)
+
+func verifOnHandle(method string) {
+	if VerifHandlerHook != nil {
+		VerifHandlerHook(method)
+	}
+}
